@@ -15,6 +15,33 @@ structure TotalPreorder (cmp : Nat → Nat → Int) : Prop where
   flip  : ∀ a b, cmp a b ≤ 0 → 0 ≤ cmp b a
   trans : ∀ a b c, 0 ≤ cmp a b → 0 ≤ cmp b c → 0 ≤ cmp a c
 
+/-- comparators of the harness: compare the keys, answer 7 / -3 / 0 (deliberately not -1/0/1) -/
+def keyCmp (key : Nat → Nat) (a b : Nat) : Int :=
+  if key a > key b then 7 else if key a < key b then -3 else 0
+
+theorem keyCmp_nonneg (key : Nat → Nat) (a b : Nat) : 0 ≤ keyCmp key a b ↔ key b ≤ key a := by
+  unfold keyCmp
+  by_cases h1 : key a > key b
+  · simp only [h1, if_true]; omega
+  · by_cases h2 : key a < key b
+    · simp only [h1, h2, if_false, if_true]; omega
+    · simp only [h1, h2, if_false]; omega
+
+theorem keyCmp_nonpos (key : Nat → Nat) (a b : Nat) : keyCmp key a b ≤ 0 ↔ key a ≤ key b := by
+  unfold keyCmp
+  by_cases h1 : key a > key b
+  · simp only [h1, if_true]; omega
+  · by_cases h2 : key a < key b
+    · simp only [h1, h2, if_false, if_true]; omega
+    · simp only [h1, h2, if_false]; omega
+
+theorem keyCmp_totalPreorder (key : Nat → Nat) : TotalPreorder (keyCmp key) := by
+  constructor
+  · intro a b h
+    rw [keyCmp_nonpos] at h; rw [keyCmp_nonneg]; exact h
+  · intro a b c h1 h2
+    rw [keyCmp_nonneg] at *; omega
+
 namespace PQ
 
 /-- `x` is held and no held element has strictly higher priority -/
